@@ -3,10 +3,12 @@ From OCV Require Import Base.Prelude Net.Uring Net.UringOracle Net.UringProofs.
 Open Scope Z_scope.
 
 (** a negative completion becomes -1 with errno = -value, a non-negative one is the return value and
-    the call reports what its own buffer holds *)
+    the call reports what its own buffer holds; in particular the completion value -1 itself (-EPERM)
+    is an error completion: -1 with errno EPERM *)
 Theorem C27_errno_mapping : forall v buf,
   (v < 0 -> map_result v buf = RErr (- v))
-  /\ (0 <= v -> map_result v buf = RRet v (firstn (Z.to_nat v) buf)).
+  /\ (0 <= v -> map_result v buf = RRet v (firstn (Z.to_nat v) buf))
+  /\ map_result (-1) buf = RErr EPERM.
 Proof. exact errno_mapping. Qed.
 
 (** any number of thread and coroutine callers with descriptors of their own and distinct tokens, any
@@ -62,7 +64,9 @@ Example C27_nonvacuous :
              {| rs_kind := KSock; rs_pre := 0; rs_eof := false; rs_timed := false |};
              {| rs_kind := KClosed; rs_pre := 0; rs_eof := false; rs_timed := false |};
              {| rs_kind := KPipeW; rs_pre := 0; rs_eof := true; rs_timed := false |};
-             {| rs_kind := KSock; rs_pre := 2; rs_eof := false; rs_timed := true |}] in
+             {| rs_kind := KSock; rs_pre := 2; rs_eof := false; rs_timed := true |};
+             {| rs_kind := KSealed; rs_pre := 0; rs_eof := true; rs_timed := false |};
+             {| rs_kind := KSealed; rs_pre := 0; rs_eof := true; rs_timed := false |}] in
   let cs := [{| cs_co := true; cs_tok := 1000;
                 cs_prog := [{| c_op := ORead; c_res := 0%nat; c_len := 3; c_hold := false |};
                             {| c_op := ORead; c_res := 0%nat; c_len := 8; c_hold := false |};
@@ -74,15 +78,21 @@ Example C27_nonvacuous :
                             {| c_op := OSend; c_res := 1%nat; c_len := 2; c_hold := false |}] |};
              {| cs_co := false; cs_tok := 1002;
                 cs_prog := [{| c_op := OWrite; c_res := 3%nat; c_len := 4; c_hold := false |};
-                            {| c_op := ORecv; c_res := 4%nat; c_len := 2; c_hold := false |}] |}] in
+                            {| c_op := ORecv; c_res := 4%nat; c_len := 2; c_hold := false |};
+                            {| c_op := OWrite; c_res := 6%nat; c_len := 5; c_hold := true |}] |};
+             {| cs_co := true; cs_tok := 1003;
+                cs_prog := [{| c_op := OWrite; c_res := 5%nat; c_len := 4; c_hold := false |};
+                            {| c_op := ORead; c_res := 5%nat; c_len := 3; c_hold := false |};
+                            {| c_op := OSend; c_res := 5%nat; c_len := 1; c_hold := false |}] |}] in
   let script := [EStart 1%nat; EStart 0%nat; EComplete 0%nat; EFeed 1%nat 4 false; EStart 2%nat; EReg 1%nat;
-                 EComplete 1%nat; ETimeout 0%nat; ESleep] in
+                 EStart 3%nat; EComplete 1%nat; ETimeout 0%nat; ESleep] in
   wf_C27 rs cs script = true /\ no_defect rs cs = true
   /\ run_C27 rs cs script =
      {| o_calls := [[RRet 3 [2; 9; 16]; RRet 2 [23; 30]; RRet 0 []; RErr ENOTSOCK];
                     [RRet 4 [55; 62; 69; 76]; RErr EBADF; RRet 2 []];
-                    [RErr EPIPE; RRet 2 [214; 221]]];
-        o_end := EndOk [0; 0; 0; 0; 0] [[]; [55; 62]; []; []; []] |}.
+                    [RErr EPIPE; RRet 2 [214; 221]; RErr EPERM];
+                    [RErr EPERM; RRet 0 []; RErr ENOTSOCK]];
+        o_end := EndOk [0; 0; 0; 0; 0; 0; 0] [[]; [55; 62]; []; []; []; []; []] |}.
 Proof. repeat split; vm_compute; reflexivity. Qed.
 
 Print Assumptions C27_errno_mapping.
